@@ -283,9 +283,10 @@ def gen_string(rng):
     return "".join(rng.choice(alphabet) for _ in range(n))
 
 
-def gen_value(rng, depth=0, exotic=True):
+def gen_value(rng, depth=0, exotic=True, big=False):
+    """big=False keeps the text small (quick tier): the Coq side costs about 50 us per character fed to it"""
     r = rng.random()
-    if depth >= 3 or r < 0.55:
+    if depth >= (3 if big else 2) or r < (0.55 if big else 0.62):
         k = rng.randrange(9)
         if k <= 2:
             return gen_string(rng)
@@ -302,10 +303,10 @@ def gen_value(rng, depth=0, exotic=True):
             return None
         return rng.choice([[], {}, [[]], {"": ""}])
     if r < 0.78:
-        return [gen_value(rng, depth + 1, exotic) for _ in range(rng.choice([1, 2, 3, 8, 15]))]
+        return [gen_value(rng, depth + 1, exotic, big) for _ in range(rng.choice([1, 2, 3, 8, 15] if big else [1, 2, 3, 7]))]
     out = {}
-    for _ in range(rng.choice([1, 2, 3, 6, 12])):
-        out[rng.choice(NAMES_BETWEEN + NAMES_AFTER + NAMES_WEIRD + ["k%d" % rng.randrange(30)])] = gen_value(rng, depth + 1, exotic)
+    for _ in range(rng.choice([1, 2, 3, 6, 12] if big else [1, 2, 3, 5])):
+        out[rng.choice(NAMES_BETWEEN + NAMES_AFTER + NAMES_WEIRD + ["k%d" % rng.randrange(30)])] = gen_value(rng, depth + 1, exotic, big)
     return out
 
 
@@ -337,7 +338,7 @@ def gen_timestamp(rng):
     return rng.uniform(-2e9, 4e9)
 
 
-def gen_message(rng, exotic=True, allow_nl_names=True):
+def gen_message(rng, exotic=True, allow_nl_names=True, big=False, nfields=(0, 1, 2, 3, 4, 6, 9)):
     """-> list of [key, value] in dict order"""
     pairs = [["task_uuid", gen_uuid(rng)], ["task_level", gen_level(rng)], ["timestamp", gen_timestamp(rng)]]
     sub = rng.randrange(8) if rng.random() < 0.8 else 7
@@ -349,7 +350,7 @@ def gen_message(rng, exotic=True, allow_nl_names=True):
         pairs.append(["action_status", rng.choice(["started", "succeeded", "failed", "weird status"])])
     pools = [NAMES_BEFORE, NAMES_BETWEEN, NAMES_AFTER, NAMES_WEIRD] + ([NAMES_NL] if allow_nl_names else [])
     seen = set(k for k, _ in pairs)
-    for _ in range(rng.choice([0, 1, 2, 3, 4, 6, 9])):
+    for _ in range(rng.choice(nfields)):
         r = rng.random()
         if r < 0.15:
             k = "f%d" % rng.randrange(100)
@@ -358,7 +359,7 @@ def gen_message(rng, exotic=True, allow_nl_names=True):
         if k in seen:
             continue
         seen.add(k)
-        pairs.append([k, gen_value(rng, 0, exotic)])
+        pairs.append([k, gen_value(rng, 0, exotic, big)])
     rng.shuffle(pairs)
     return pairs
 
@@ -377,8 +378,9 @@ FORMAT_CORPUS = [
 
 
 def gen_format(rng, tier):
-    n = 220 if tier == "quick" else 4000
-    return [{"msg": gen_message(rng)} for _ in range(n)]
+    if tier == "quick":
+        return [{"msg": gen_message(rng, nfields=(0, 1, 2, 3, 4, 6))} for _ in range(110)]
+    return [{"msg": gen_message(rng, big=True)} for _ in range(3000)]
 
 
 def impl_format(case):
@@ -489,7 +491,7 @@ def classify(raw):
     """('notjson',) | ('other',) | ('obj', dict)  -- json.loads is the external classifier"""
     try:
         v = json.loads(raw)
-    except ValueError:      # includes UnicodeDecodeError
+    except (ValueError, RecursionError):      # ValueError includes UnicodeDecodeError; RecursionError: nested too deeply
         return ("notjson",)
     if isinstance(v, dict):
         return ("obj", v)
@@ -498,6 +500,25 @@ def classify(raw):
 
 def well_typed(m):
     return level_strs(m["task_level"]) is not None and ts_text(m["timestamp"]) is not None
+
+
+def depth_of(v):
+    """nesting depth of a decoded JSON value, without recursion"""
+    best, stack = 0, [(v, 1)]
+    while stack:
+        x, d = stack.pop()
+        if isinstance(x, dict):
+            best = max(best, d)
+            stack.extend((y, d + 1) for y in x.values())
+        elif isinstance(x, list):
+            best = max(best, d)
+            stack.extend((y, d + 1) for y in x)
+    return best
+
+
+def cli_deep(lines):
+    """an accepted object carries a value nested deeper than pprint can render (known finding; no reference rendering)"""
+    return any(c[0] == "obj" and all(k in c[1] for k in REQUIRED) and depth_of(c[1]) > 200 for raw, c in lines)
 
 
 def line_repr(raw):
@@ -531,6 +552,9 @@ ILL_TYPED = [  # outside the stated guard: no claim is checked on streams contai
 ]
 
 LINE_KINDS = ["eliot", "eliot", "eliot", "bytes", "badutf8", "text", "scalar", "partial", "blank", "oddtyped", "eliot-variant"]
+DEEP = 3000          # far above the decoder's nesting limit (about 1500) in any frame depth
+DEEP_VALUE = 450     # a value json.loads accepts but pprint cannot render (limit about 330)
+KNOWN_DEEP_VALUE = "C20-deep-value-pformat-recursion"
 
 
 def enc_message(rng, m):
@@ -544,12 +568,16 @@ def enc_message(rng, m):
     return b" " + json.dumps(m, sort_keys=True).encode("ascii") + b" "
 
 
-def gen_line(rng, kind):
+def gen_line(rng, kind, big=False):
     """-> bytes without the terminating newline"""
+    nf = (0, 1, 2, 3, 4, 6, 9) if big else (0, 1, 2, 3)
     if kind == "eliot":
-        return enc_message(rng, dict(gen_message(rng, exotic=False)))
+        return enc_message(rng, dict(gen_message(rng, exotic=False, big=big, nfields=nf)))
+    if kind == "deep":
+        return rng.choice([b"[" * DEEP, b'{"a":' * DEEP, b"[" * DEEP + b"1" + b"]" * DEEP,
+                           b'{"task_uuid":"u","task_level":[1],"timestamp":0,"x":' + b"[" * DEEP + b"]" * DEEP + b"}"])
     if kind == "eliot-variant":
-        raw = json.dumps(dict(gen_message(rng, exotic=False, allow_nl_names=False))).encode("ascii")
+        raw = json.dumps(dict(gen_message(rng, exotic=False, allow_nl_names=False, big=big, nfields=nf))).encode("ascii")
         r = rng.randrange(4)
         if r == 0:
             return raw + b"\r"                      # CRLF log
@@ -570,7 +598,7 @@ def gen_line(rng, kind):
     if kind == "partial":
         m = dict(rng.choice(PARTIAL))
         if rng.random() < 0.5:
-            m["extra"] = gen_value(rng, 1, exotic=False)
+            m["extra"] = gen_value(rng, 1, exotic=False, big=big)
         return json.dumps(m).encode("ascii")
     if kind == "blank":
         return rng.choice(BLANK)
@@ -582,7 +610,14 @@ def gen_line(rng, kind):
 
 
 _E = b'{"task_uuid": "u", "task_level": [1], "timestamp": 0, "k": "v"}'
+_DEEPV = b'{"task_uuid": "u", "task_level": [1], "timestamp": 0, "x": ' + b"[" * DEEP_VALUE + b"]" * DEEP_VALUE + b"}"
 CLI_CORPUS = [
+    # lines nested too deeply to decode (fixed eebc9b0: reported as Not JSON, the stream goes on)
+    {"data": (b"[" * DEEP + b"\n" + _E + b"\n").hex(), "opts": []},
+    {"data": (_E + b"\n" + b'{"a":' * DEEP + b"\n" + b"[" * DEEP + b"1" + b"]" * DEEP + b"\n" + _E + b"\n").hex(), "opts": ["-c"]},
+    # known finding: a value pprint cannot render (default mode only)
+    {"data": (_E + b"\n" + _DEEPV + b"\n" + _E + b"\n").hex(), "opts": []},
+    {"data": (_E + b"\n" + _DEEPV + b"\n" + _E + b"\n").hex(), "opts": ["-c"]},
     {"data": (b"5\n" + _E + b"\n").hex(), "opts": []},                      # F4: scalar line, then a message
     {"data": (b"null\n[1,2]\n\"s\"\n" + _E + b"\n").hex(), "opts": ["-c"]},
     {"data": (b"\xff\xfe\n" + _E + b"\nnot json\n{}\n\n" + _E).hex(), "opts": []},
@@ -592,13 +627,16 @@ CLI_CORPUS = [
 
 
 def gen_cli(rng, tier):
-    n = 160 if tier == "quick" else 3000
+    big = tier != "quick"
+    n = 3000 if big else 90
     cases = []
     for i in range(n):
-        kinds = [rng.choice(LINE_KINDS) for _ in range(rng.choice([1, 2, 3, 4, 6, 10]))]
+        kinds = [rng.choice(LINE_KINDS) for _ in range(rng.choice([1, 2, 3, 4, 6, 10] if big else [1, 2, 3, 4, 6]))]
         if rng.random() < 0.04:
             kinds[rng.randrange(len(kinds))] = "illtyped"
-        data = b"".join(gen_line(rng, k) + b"\n" for k in kinds)
+        if rng.random() < (0.01 if big else 0.03):
+            kinds[rng.randrange(len(kinds))] = "deep"
+        data = b"".join(gen_line(rng, k, big) + b"\n" for k in kinds)
         if rng.random() < 0.2 and data:
             data = data[:-1]                         # last line without a newline
         opts = rng.choice([[], [], ["-c"], ["-c"], ["--compact"]])
@@ -647,7 +685,7 @@ def cli_local(case):
 
 def model_cli(case):
     lines = cli_lines(case)
-    if not cli_guarded(lines) or cli_local(case):
+    if not cli_guarded(lines) or cli_local(case) or cli_deep(lines):
         return None
     parts = []
     for raw, c in lines:
@@ -668,7 +706,7 @@ def model_obs_cli(case, v):
 
 def project_cli(case, obs):
     lines = cli_lines(case)
-    if not cli_guarded(lines) or cli_local(case):
+    if not cli_guarded(lines) or cli_local(case) or cli_deep(lines):
         return obs
     return {"out": obs.get("out"), "completed": obs.get("raised") is None}
 
@@ -682,6 +720,8 @@ def oracle_cli(case, obs):
     if cli_local(case):
         return None
     compact = cli_compact(case)
+    if cli_deep(lines) and not compact:
+        return None          # no reference rendering: pprint cannot render the value in this process either
     expected = []
     for raw, c in lines:
         if c[0] == "notjson":
@@ -702,7 +742,16 @@ def oracle_cli(case, obs):
     return None
 
 
+def known_cli(case, obs, failure):
+    lines = cli_lines(case)
+    if "RecursionError" in (obs.get("raised") or "") and cli_deep(lines) and not cli_compact(case):
+        return KNOWN_DEEP_VALUE
+    return None
+
+
 def _line_tag(raw, c):
+    if c[0] == "notjson" and len(raw) >= DEEP:
+        return "not-json:too-deep"
     if c[0] == "notjson":
         try:
             raw.decode("utf-8")
@@ -782,12 +831,12 @@ def _iso_default(o):
     raise TypeError(repr(o))
 
 
-def gen_log_message(rng, i):
-    m = dict(gen_message(rng, exotic=False))
+def gen_log_message(rng, i, big=False):
+    m = dict(gen_message(rng, exotic=False, big=big, nfields=(0, 1, 2, 3, 4, 6, 9) if big else (0, 1, 2)))
     m["n"] = rng.choice([i, rng.randrange(100)])
     if rng.random() < 0.5:
         m["message_type"] = "my:message"
-        m["field"] = gen_value(rng, 1, exotic=False)
+        m["field"] = gen_value(rng, 1, exotic=False, big=big)
     elif rng.random() < 0.3:
         m["message_type"] = "other:message"
     m["timestamp"] = abs(m["timestamp"]) if m["timestamp"] < 0 else m["timestamp"]
@@ -795,14 +844,15 @@ def gen_log_message(rng, i):
 
 
 def gen_filter(rng, tier):
-    n = 120 if tier == "quick" else 2500
+    big = tier != "quick"
+    n = 2500 if big else 64
     cases = []
     names = sorted(EXPRS)
     for i in range(n):
-        k = rng.choice([0, 1, 2, 3, 5, 8])
+        k = rng.choice([0, 1, 2, 3, 5, 8] if big else [0, 1, 2, 3, 5])
         lines = []
         for j in range(k):
-            m = gen_log_message(rng, j)
+            m = gen_log_message(rng, j, big)
             style = rng.randrange(3)
             if style == 0:
                 raw = json.dumps(m).encode("ascii")
@@ -935,7 +985,7 @@ FAMILIES = [
     Family("format", gen_format, impl_format, model_format, model_obs_format, oracle_format, nontrivial_format,
            imports=["Model.Pretty"], project=project_format, corpus=FORMAT_CORPUS, shrink=shrink_format,
            describe=describe_format, shard=60, coq_shard=20),
-    Family("cli", gen_cli, impl_cli, model_cli, model_obs_cli, oracle_cli, nontrivial_cli,
+    Family("cli", gen_cli, impl_cli, model_cli, model_obs_cli, oracle_cli, nontrivial_cli, known=known_cli,
            imports=["Model.Pretty"], project=project_cli, corpus=CLI_CORPUS, shrink=shrink_cli,
            describe=describe_cli, shard=60, coq_shard=15),
     Family("filter", gen_filter, impl_filter, model_filter, model_obs_filter, oracle_filter, nontrivial_filter,
